@@ -5,6 +5,7 @@ import (
 	"bytes"
 	"fmt"
 	"io"
+	"strings"
 
 	"github.com/gobwas/ws"
 	"github.com/gobwas/ws/wsutil"
@@ -421,6 +422,14 @@ func frameHelperCase(c *mon.C, name string, n int, key, inKey [4]byte, kk int) b
 			var out ws.Frame
 			copying := false
 			unmask := false
+			// every other key round the frame handed to a MASKING helper already carries a mask in its header
+			// (a frame read from a client and forwarded, or masked once before): the helper's job does not
+			// depend on that - the payload bytes as given are XORed with the new key
+			premasked := kk%2 == 1 && !strings.HasPrefix(name, "Unmask")
+			if premasked {
+				f.Header.Masked, f.Header.Mask = true, inKey
+				det["input_header_already_masked"] = true
+			}
 			switch name {
 			case "MaskFrame":
 				out, copying = ws.MaskFrame(f), true
@@ -478,7 +487,7 @@ func frameHelperCase(c *mon.C, name string, n int, key, inKey [4]byte, kk int) b
 				fail("not-inplace", "documented as in-place but the result does not alias the input")
 				return false
 			}
-			c.Classf("%s n=%s key=%d", name, lenClass(n), kk)
+			c.Classf("%s n=%s key=%d premasked=%v", name, lenClass(n), kk, premasked)
 			c.Sample(det)
 		}
 	}
@@ -490,7 +499,7 @@ func main() {
 		Property: "C02",
 		Level:    "exploration",
 		Rule: "cases: (a) exhaustive grid payload length {0..96,127..129,255..257,1000,4095..4097,65539} x offset {0..11, 2^16+1, 2^31+2, 2^40+3} x slice alignment 0..15 x 4 keys with 32-byte canaries, " +
-			"(b) random partitions with running offset, (c) CipherReader over chunked sources x caller buffer sizes x mid-stream Reset, (d) CipherWriter over random write partitions incl. short-write destinations, (e) the six frame mask/unmask helpers x all lengths. " +
+			"(b) random partitions with running offset, (c) CipherReader over chunked sources x caller buffer sizes x mid-stream Reset, (d) CipherWriter over random write partitions incl. short-write destinations, (e) the six frame mask/unmask helpers x all lengths x 4 keys, the masking helpers also on frames whose header already says masked. " +
 			"Non-trivial = output compared byte-for-byte with the naive XOR reference; distinct = (length, offset mod 4, alignment, key kind) / (length class, partition size, plan, buffer) classes. Built with -race (checkptr on).",
 		Assumptions: []string{"reference ref.Mask is the one-line XOR of RFC 6455 §5.3", "offsets near MaxInt are outside what a stream can reach and are not claimed"},
 		Subs:        []mon.Sub{subGrid(), subChunks(), subReader(), subWriter(), subFrames()},
